@@ -146,6 +146,30 @@ func check(c Case) error {
 		if !strings.EqualFold(fs, want) {
 			return vk.Errf("record route: location %q on parent %q: feature sequence %q, INSDC reading %q", text, parent, fs, want)
 		}
+		// (a'') the same record as the first of two in one file, through the multi-record parser: each feature must
+		// still report the bases of its own record
+		other := strings.Repeat("t", len(parent)+3)
+		var many []poly.Sequence
+		func() {
+			defer func() {
+				if r := recover(); r != nil {
+					err = fmt.Errorf("panic: %v", r)
+				}
+			}()
+			many = genbank.ParseMulti(append(record(parent, text), record(other, fmt.Sprintf("1..%d", len(other)))...))
+			if len(many) == 2 && len(many[0].Features) == 1 {
+				fs = many[0].Features[0].GetSequence()
+			}
+		}()
+		if err != nil {
+			return vk.Errf("ParseMulti of two records, the first holding the location %q: %v", text, err)
+		}
+		if len(many) != 2 || len(many[0].Features) != 1 {
+			return vk.Errf("ParseMulti of two records, the first holding the location %q: %d records returned", text, len(many))
+		}
+		if !strings.EqualFold(fs, want) {
+			return vk.Errf("multi-record route: location %q on parent %q (first of two records): feature sequence %q, INSDC reading %q", text, parent, fs, want)
+		}
 	}
 	// (b) assembled as a structure
 	st := n.Structure()
